@@ -71,6 +71,10 @@ func readGitConfig(configs ...*git.ConfigurationSource) (gf *GitFetcher, extensi
 					}
 					ext.Smudge = val
 				case "priority":
+					if gc.OnlySafeKeys {
+						ignored = append(ignored, key)
+						continue
+					}
 					allowed = true
 					p, err := strconv.Atoi(val)
 					if err == nil && p >= 0 {
